@@ -248,11 +248,10 @@ namespace
       if (kind <= 2)
         n.add_phi(n.zl(p) == f);
       else
-      { // one-directional: the literal forces the cardinality constraint (set semantics of the argument list)
+      { // one-directional: the literal forces the cardinality constraint over the argument list as written (a repeated literal counts twice)
         std::vector<lit> set = args;
         std::sort(set.begin(), set.end());
-        set.erase(std::unique(set.begin(), set.end()), set.end());
-        z3::expr_vector pairs(n.z);
+          z3::expr_vector pairs(n.z);
         for (size_t i = 0; i < set.size(); ++i)
           for (size_t j = i + 1; j < set.size(); ++j) pairs.push_back(!n.zl(set[i]) || !n.zl(set[j]));
         z3::expr card = pairs.empty() ? n.z.bool_val(true) : z3::mk_and(pairs);
@@ -964,11 +963,10 @@ namespace
       zs.pop();
       return res;
     };
-    // formulas of the cardinality constraints (set semantics over distinct literals)
+    // formulas of the cardinality constraints (every position of the argument list counts: a repeated literal counts twice)
     auto card = [&](const Built &b) {
       std::vector<lit> set = b.args;
       std::sort(set.begin(), set.end());
-      set.erase(std::unique(set.begin(), set.end()), set.end());
       z3::expr_vector pairs(n.z), any(n.z);
       for (size_t i = 0; i < set.size(); ++i)
       {
@@ -1027,12 +1025,11 @@ namespace
         for (auto &b : built)
           if (b.kind >= 3)
           {
-            // does the constraint hold under alpha? (set semantics over distinct literals)
+            // does the constraint hold under alpha? (every position of the argument list counts)
             {
               std::vector<lit> set = b.args;
               std::sort(set.begin(), set.end());
-              set.erase(std::unique(set.begin(), set.end()), set.end());
-              int cnt = 0;
+                      int cnt = 0;
               for (auto &x : set) cnt += evalLit(x, a) ? 1 : 0;
               if (cnt > 1 || (b.kind == 4 && cnt != 1)) continue;
             }
